@@ -221,6 +221,7 @@ __CPROVER_requires(SPEC_ALG_IN_ENUM(jwt->alg) && SPEC_ALG_IN_ENUM(config->alg) &
 __CPROVER_requires(SPEC_ERRMSG_TERMINATED(jwt)) \
 __CPROVER_requires(token != NULL && payload_len < 0x7ffffff0 && __CPROVER_r_ok(token, (size_t)payload_len + 2)) \
 __CPROVER_requires(OPS_TABLE_OBEYS(all)) \
+__CPROVER_requires(config->key == NULL || ITEM_WF(config->key)) \
 __CPROVER_requires(C04_OBS(jwt) && VCP_OBS(jwt, config, VC_SIGNED(token, payload_len))) \
 __CPROVER_assigns(jwt->error, SPEC_ERRMSG_FRAME(jwt), jwt->key, g_strcmp_b, g_strcmp_ret, g_strcmp_hits, OPS_GHOST_ASSIGNS) \
 __CPROVER_ensures(__CPROVER_return_value == jwt) \
@@ -277,7 +278,7 @@ __CPROVER_ensures((p) == NULL || (p)->tracked == NULL || (p)->tracked->type != J
 json_t *contract_jwt_base64uri_decode_to_json(char *src)
 __CPROVER_requires(src != NULL && __CPROVER_r_ok(src, 1))
 __CPROVER_requires(g_vj_len_c < 0x1000000)
-__CPROVER_assigns(g_json_loads_flags)
+__CPROVER_assigns(JSON_LOAD_GHOSTS)
 ENS_FRESH_DOC(__CPROVER_return_value)
 /* C04: the JSON is decoded without NUL / duplicate tolerance flags */
 __CPROVER_ensures(__CPROVER_return_value != NULL ==> g_json_loads_flags == 0)
@@ -290,7 +291,7 @@ __CPROVER_requires(jwt->headers == NULL || EMPTY_OBJ(jwt->headers)) \
 __CPROVER_requires(head != NULL && __CPROVER_r_ok(head, 1)) \
 __CPROVER_requires(g_vj_len_c < 0x1000000 && KEY_IS_NAME3) \
 __CPROVER_requires(SPEC_ERRMSG_TERMINATED(jwt)) \
-__CPROVER_assigns(jwt->headers, jwt->alg, jwt->error, SPEC_ERRMSG_FRAME(jwt), g_json_loads_flags; \
+__CPROVER_assigns(jwt->headers, jwt->alg, jwt->error, SPEC_ERRMSG_FRAME(jwt), JSON_LOAD_GHOSTS; \
 		  jwt->headers != NULL: __CPROVER_object_whole(jwt->headers)) \
 __CPROVER_frees(jwt->headers) \
 __CPROVER_ensures(__CPROVER_return_value == 0 || __CPROVER_return_value == 1) \
@@ -319,7 +320,7 @@ __CPROVER_requires(jwt->claims == NULL || EMPTY_OBJ(jwt->claims)) \
 __CPROVER_requires(payload != NULL && __CPROVER_r_ok(payload, 1)) \
 __CPROVER_requires(g_vj_len_c < 0x1000000) \
 __CPROVER_requires(SPEC_ERRMSG_TERMINATED(jwt)) \
-__CPROVER_assigns(jwt->claims, jwt->error, SPEC_ERRMSG_FRAME(jwt), g_json_loads_flags; \
+__CPROVER_assigns(jwt->claims, jwt->error, SPEC_ERRMSG_FRAME(jwt), JSON_LOAD_GHOSTS; \
 		  jwt->claims != NULL: __CPROVER_object_whole(jwt->claims)) \
 __CPROVER_frees(jwt->claims) \
 __CPROVER_ensures(__CPROVER_return_value == 0 || __CPROVER_return_value == 1) \
